@@ -44,8 +44,8 @@ PROPS = {
         explanation='two functions of information-set construction and attribute access cannot panic or recurse forever, whatever the parser produced: attr_value_from_name (entity expansion in attribute values: the recursion on entity references has a decreasing measure, a parameter-entity reference is an error) and XmlDocumentTypeDeclaration::node (every variant of the internal subset, including parameter-entity declarations and references, leads to a value or an error)',
     ),
     'C12': dict(
-        standin_ops=['dom.views_after_edits', 'dom.children_after_edits', 'dom.tree_atomic', 'dom.attr_owner', 'dom.seq_tree'],
-        quick_grids=['dom.seq1_tree'],
+        standin_ops=['dom.views_after_edits', 'dom.children_after_edits', 'dom.tree_atomic', 'dom.attr_owner', 'dom.seq_tree', 'dom.edit_views'],
+        quick_grids=['dom.seq1_tree', 'dom.edit_views1'],
         verus_units=['c13_tree', 'c12_idmap', 'c12_remove', 'c12_siblings'],
         level='proof',
         trusted_base=TRUSTED_VERUS,
@@ -77,8 +77,8 @@ PROPS = {
         explanation='character data only: whenever insert/delete on a text, comment or CDATA information item reports success, the stored string is still lexically valid for its node kind (no ]]> in text or CDATA, no -- in a comment and no trailing -, no < or & in text, only XML Chars), also when the offending sequence arises only from joining the edit with the existing data',
     ),
     'C14': dict(
-        standin_ops=['order.script', 'dom.order_keys', 'dom.keys_after_edits', 'dom.preorder_after_edits', 'dom.seq_order'],
-        quick_grids=['dom.seq1_order'],
+        standin_ops=['order.script', 'dom.order_keys', 'dom.keys_after_edits', 'dom.preorder_after_edits', 'dom.seq_order', 'dom.edit_order'],
+        quick_grids=['dom.seq1_order', 'dom.edit_order1'],
         verus_units=['c14_order', 'c13_tree', 'c14_init', 'c14_subtree'],
         level='proof',
         trusted_base=TRUSTED_VERUS,
